@@ -570,4 +570,254 @@ theorem collect_effect {s s' : State} {i : Nat} {u : Path} {answers : List Ans} 
             · exact absurd hin hout
   · simp at h
 
+
+/-! ## `NeedsTable` as two reads: a "no" is final -/
+
+theorem allFresh_not_mem : ∀ {ps used : List Path}, allFresh used ps = true → ∀ p ∈ ps, p ∉ used := by
+  intro ps
+  induction ps with
+  | nil => intro used _ p hp; cases hp
+  | cons q qs ih =>
+    intro used h p hp
+    simp only [allFresh, Bool.and_eq_true] at h
+    rcases List.mem_cons.mp hp with rfl | hp
+    · simpa using h.1
+    · intro hu
+      exact ih h.2 p hp (List.mem_cons_of_mem _ hu)
+
+theorem get_setInst {s : State} {i j : Nat} {xi y x : Inst} (hi : s.insts[i]? = some xi)
+    (hj : s.insts[j]? = some x) :
+    ∃ x', (s.insts.set i y)[j]? = some x' ∧ ((i = j ∧ x' = y ∧ x = xi) ∨ x' = x) := by
+  by_cases h : i = j
+  · subst h
+    have hlt : i < s.insts.length := by
+      rcases Nat.lt_or_ge i s.insts.length with hlt | hge
+      · exact hlt
+      · rw [List.getElem?_eq_none hge] at hi; cases hi
+    refine ⟨y, by simp [hlt], Or.inl ⟨rfl, rfl, ?_⟩⟩
+    rw [hi] at hj; injection hj with hj; exact hj.symm
+  · exact ⟨x, by simp [h, hj], Or.inr rfl⟩
+
+/-- what a step can do to instance `j`: new tables of its level list have unused names, new checkpoints capture
+the level list it had, names stay used -/
+structure Frame (s s' : State) (j : Nat) (x : Inst) : Prop where
+  used : ∀ u ∈ s.used, u ∈ s'.used
+  inst : ∃ x', s'.insts[j]? = some x' ∧ (∀ t ∈ x'.current, t ∈ x.current ∨ t.uri ∉ s.used) ∧
+    (∀ c ∈ x'.ckpts, c ∈ x.ckpts ∨ c.tables = x.current)
+
+theorem frame_same {s s' : State} {j : Nat} {x : Inst} (hu : ∀ u ∈ s.used, u ∈ s'.used)
+    (hj : s'.insts[j]? = some x) : Frame s s' j x :=
+  ⟨hu, x, hj, fun _ ht => Or.inl ht, fun _ hc => Or.inl hc⟩
+
+theorem frame_set {s s' : State} {i j : Nat} {xi y x : Inst} (hi : s.insts[i]? = some xi)
+    (hj : s.insts[j]? = some x) (hins : s'.insts = s.insts.set i y) (hu : ∀ u ∈ s.used, u ∈ s'.used)
+    (hcur : ∀ t ∈ y.current, t ∈ xi.current ∨ t.uri ∉ s.used)
+    (hck : ∀ c ∈ y.ckpts, c ∈ xi.ckpts ∨ c.tables = xi.current) : Frame s s' j x := by
+  obtain ⟨x', hx', hcase⟩ := get_setInst (y := y) hi hj
+  refine ⟨hu, x', by rw [hins]; exact hx', ?_⟩
+  rcases hcase with ⟨_, rfl, rfl⟩ | rfl
+  · exact ⟨hcur, hck⟩
+  · exact ⟨fun _ ht => Or.inl ht, fun _ hc => Or.inl hc⟩
+
+theorem step_frame {s s' : State} {a : Act} {j : Nat} {x : Inst} (h : step s a = some s')
+    (hj : s.insts[j]? = some x) : Frame s s' j x := by
+  have hlt : j < s.insts.length := by
+    rcases Nat.lt_or_ge j s.insts.length with hlt | hge
+    · exact hlt
+    · rw [List.getElem?_eq_none hge] at hj; cases hj
+  have happ : ∀ y : Inst, (s.insts ++ [y])[j]? = some x := by
+    intro y; rw [List.getElem?_append_left hlt]; exact hj
+  cases a with
+  | openFresh r g n =>
+    simp only [step] at h; injection h with h; subst h
+    exact frame_same (fun _ hu => hu) (happ _)
+  | openFrom r g n ws id =>
+    simp only [step] at h
+    split at h
+    · simp at h
+    · simp at h
+    · injection h with h; subst h
+      exact frame_same (fun _ hu => hu) (happ _)
+  | jobDrop k =>
+    simp only [step] at h
+    split at h
+    · injection h with h; subst h; exact frame_same (fun _ hu => hu) hj
+    · simp at h
+  | flush i t =>
+    simp only [step] at h
+    split at h
+    · simp at h
+    · rename_i xi hi
+      split at h
+      · rename_i hc
+        injection h with h; subst h
+        refine frame_set hi hj rfl (fun _ hu => List.mem_cons_of_mem _ hu) ?_ (fun _ hc => Or.inl hc)
+        intro t' ht'
+        rcases List.mem_cons.mp ht' with rfl | ht'
+        · exact Or.inr (by simpa using hc.2)
+        · exact Or.inl ht'
+      · simp at h
+  | compact i rm add =>
+    simp only [step] at h
+    split at h
+    · simp at h
+    · rename_i xi hi
+      split at h
+      · rename_i hc
+        injection h with h; subst h
+        refine frame_set hi hj rfl (fun _ hu => List.mem_append_right _ hu) ?_ (fun _ hc => Or.inl hc)
+        intro t' ht'
+        rcases List.mem_append.mp ht' with ht' | ht'
+        · exact Or.inl (List.mem_filter.mp ht').1
+        · exact Or.inr (allFresh_not_mem hc.2.1 _ (List.mem_map.mpr ⟨t', ht', rfl⟩))
+      · simp at h
+  | ckpt i id wal =>
+    simp only [step] at h
+    split at h
+    · simp at h
+    · rename_i xi hi
+      split at h
+      · injection h with h; subst h
+        refine frame_set hi hj rfl (fun _ hu => List.mem_cons_of_mem _ hu) (fun _ ht => Or.inl ht) ?_
+        intro c hc
+        rcases List.mem_append.mp hc with hc | hc
+        · exact Or.inl hc
+        · have : c = ⟨id, xi.current, [wal], false⟩ := by simpa using hc
+          exact Or.inr (by rw [this])
+      · simp at h
+  | retain i ids =>
+    simp only [step] at h
+    split at h
+    · simp at h
+    · rename_i xi hi
+      split at h
+      · injection h with h; subst h
+        exact frame_set hi hj rfl (fun _ hu => hu) (fun _ ht => Or.inl ht)
+          (fun c hc => Or.inl (mem_keptOf.mp hc).1)
+      · simp at h
+  | snap i =>
+    simp only [step] at h
+    split at h
+    · simp at h
+    · rename_i xi hi
+      split at h
+      · injection h with h; subst h
+        exact frame_set hi hj rfl (fun _ hu => hu) (fun _ ht => Or.inl ht) (fun _ hc => Or.inl hc)
+      · simp at h
+  | unsnap i k =>
+    simp only [step] at h
+    split at h
+    · simp at h
+    · rename_i xi hi
+      split at h
+      · injection h with h; subst h
+        exact frame_set hi hj rfl (fun _ hu => hu) (fun _ ht => Or.inl ht) (fun _ hc => Or.inl hc)
+      · simp at h
+  | crash i =>
+    simp only [step] at h
+    split at h
+    · simp at h
+    · rename_i xi hi
+      split at h
+      · injection h with h; subst h
+        exact frame_set hi hj rfl (fun _ hu => hu) (fun _ ht => Or.inl ht) (fun _ hc => Or.inl hc)
+      · simp at h
+  | release i =>
+    simp only [step] at h
+    split at h
+    · simp at h
+    · rename_i xi hi
+      split at h
+      · injection h with h; subst h
+        exact frame_set hi hj rfl (fun _ hu => hu) (fun _ ht => Or.inl ht) (fun _ hc => Or.inl hc)
+      · simp at h
+  | collect i u answers =>
+    simp only [step] at h
+    split at h
+    · simp at h
+    · rename_i xi hi
+      split at h
+      · split at h
+        · injection h with h; subst h
+          exact frame_set hi hj rfl (fun _ hu => hu) (fun _ ht => Or.inl ht) (fun _ hc => Or.inl hc)
+        · split at h
+          · simp at h
+          · injection h with h; subst h
+            exact frame_set hi hj rfl (fun _ hu => hu) (fun _ ht => Or.inl ht) (fun _ hc => Or.inl hc)
+      · simp at h
+
+/-- the table is not in the instance's live level list (and its name is taken, so it can never come back) -/
+def NotLive (s : State) (j : Nat) (u : Path) : Prop :=
+  ∃ x, s.insts[j]? = some x ∧ u ∈ s.used ∧ u ∉ uris x.current
+
+/-- … and in none of its checkpoints -/
+def NotNeeded (s : State) (j : Nat) (u : Path) : Prop :=
+  ∃ x, s.insts[j]? = some x ∧ u ∈ s.used ∧ u ∉ uris x.current ∧ ∀ c ∈ x.ckpts, u ∉ uris c.tables
+
+theorem step_notLive {s s' : State} {a : Act} {j : Nat} {u : Path} (h : step s a = some s')
+    (p : NotLive s j u) : NotLive s' j u := by
+  obtain ⟨x, hx, hu, hn⟩ := p
+  obtain ⟨hused, x', hx', hcur, _⟩ := step_frame h hx
+  refine ⟨x', hx', hused u hu, ?_⟩
+  intro hm
+  obtain ⟨t, ht, rfl⟩ := List.mem_map.mp hm
+  rcases hcur t ht with h1 | h1
+  · exact hn (List.mem_map.mpr ⟨t, h1, rfl⟩)
+  · exact h1 hu
+
+theorem step_notNeeded {s s' : State} {a : Act} {j : Nat} {u : Path} (h : step s a = some s')
+    (p : NotNeeded s j u) : NotNeeded s' j u := by
+  obtain ⟨x, hx, hu, hn, hc⟩ := p
+  obtain ⟨x', hx', hu', hn'⟩ := step_notLive h ⟨x, hx, hu, hn⟩
+  obtain ⟨_, x'', hx'', _, hck⟩ := step_frame h hx
+  rw [hx'] at hx''; injection hx'' with hx''; subst hx''
+  refine ⟨x', hx', hu', hn', ?_⟩
+  intro c hcm
+  rcases hck c hcm with h1 | h1
+  · exact hc c h1
+  · rw [h1]; exact hn
+
+theorem run_notLive {as : List Act} : ∀ {s s' : State} {j : Nat} {u : Path}, run s as = some s' →
+    NotLive s j u → NotLive s' j u := by
+  induction as with
+  | nil => intro s s' j u h p; simp only [run] at h; injection h with h; subst h; exact p
+  | cons a as ih =>
+    intro s s' j u h p
+    simp only [run] at h
+    split at h
+    · rename_i s1 hs
+      exact ih h (step_notLive hs p)
+    · simp at h
+
+theorem run_notNeeded {as : List Act} : ∀ {s s' : State} {j : Nat} {u : Path}, run s as = some s' →
+    NotNeeded s j u → NotNeeded s' j u := by
+  induction as with
+  | nil => intro s s' j u h p; simp only [run] at h; injection h with h; subst h; exact p
+  | cons a as ih =>
+    intro s s' j u h p
+    simp only [run] at h
+    split at h
+    · rename_i s1 hs
+      exact ih h (step_notNeeded hs p)
+    · simp at h
+
+theorem readLive_false {x : Inst} {u : Path} (h : readLive x u = false) : u ∉ uris x.current := by
+  simpa [readLive, Facts.c09NeedsChecksLive] using h
+
+theorem readCkpts_false {x : Inst} {u : Path} (h : readCkpts x u = false) : ∀ c ∈ x.ckpts, u ∉ uris c.tables := by
+  intro c hc hu
+  unfold readCkpts at h
+  rw [List.any_eq_false] at h
+  exact h c hc (by simp [ckptIncludes, Facts.c09CkptUsesLevels, hu])
+
+theorem needsTable_of_notNeeded {x : Inst} {u : Path} (h1 : u ∉ uris x.current)
+    (h2 : ∀ c ∈ x.ckpts, u ∉ uris c.tables) : needsTable x u = false := by
+  unfold needsTable
+  simp only [Bool.or_eq_false_iff, Bool.and_eq_false_iff]
+  refine ⟨?_, Or.inr (by simpa using h1)⟩
+  rw [List.any_eq_false]
+  intro c hc
+  have := h2 c hc
+  simp [ckptIncludes, this]
+
 end Rxn.Files
